@@ -339,6 +339,12 @@ IDIOMS = [
     "Where(ds, lambda {x}: (lambda {s}, {n}: Count(Where({s}, lambda {x2}: {x2} > {n})) > 0)(Select({x}.jets, lambda {x3}: {x3}.pt), {x}.x))",
     "Select(Select(ds, lambda {x}: (lambda {s}: ({s}, Select({s}, lambda {x2}: {x2}.pt)))({x}.jets)), lambda {x3}: Count({x3}[0]) + Count({x3}[1]))",
     "SelectMany(ds, lambda {x}: (lambda {s}: SelectMany({s}, lambda {x2}: Select({s}, lambda {x3}: {x2}.pt - {x3}.pt)))(Where({x}.jets, lambda {x4}: {x4}.eta > -2)))",
+    # guarded filters: the later predicate is only defined on what the earlier one lets through
+    "Where(Where(ds, lambda {x}: Count(Where({x}.jets, lambda {x2}: {x2}.pt >= 0)) > 0), lambda {x3}: First({x3}.jets).pt > 1)",
+    "Where(Where(ds, lambda {x}: Count({x}.jets) > 0), lambda {x2}: First({x2}.jets).eta < 1)",
+    "Select(Where(Where(ds, lambda {x}: Count(Select({x}.jets, lambda {x2}: {x2}.eta)) > 1), lambda {x3}: First({x3}.jets).pt >= 0), lambda {x4}: First({x4}.jets).pt + {x4}.x)",
+    "Select(ds, lambda {x}: Count(Where(Where({x}.jets, lambda {x2}: Count(Where({x}.jets, lambda {x3}: {x3}.pt > {x2}.pt)) > 0), lambda {x4}: First(Where({x}.jets, lambda {s}: {s}.pt > {x4}.pt)).pt > 0)))",
+    "SelectMany(ds, lambda {x}: Where(Where({x}.jets, lambda {x2}: Count(Where({x}.jets, lambda {x3}: {x3}.eta < {x2}.eta)) > 0), lambda {x4}: First(Where({x}.jets, lambda {n}: {n}.eta < {x4}.eta)).pt >= 0))",
 ]
 
 
